@@ -50,6 +50,9 @@ def run(ck):
     from ..report import RuleView
     from . import c14
     c14.join_score(RuleView(ck, {"C14.2": "C01.9"}))
+    ck.clause("C01.10", "a joined record is made only of segments that were checked against each other (the join bypasses the "
+                        "chainer: a segment carried over from one part can cross the other part) (as C08.6)")
+    c08._joined_row(RuleView(ck, {"C08.6": "C01.10"}))
     no_empty_rows(ck)
     resolver_used(ck)
     pairwise_pass(ck, "C01.3")
@@ -57,8 +60,9 @@ def run(ck):
     ck.observe("O1 conflicts are resolved between consecutive chain members only "
                "(segment_with_resolved_conflicts.py); whether non-adjacent segments can still share a label is "
                "geometry-dependent and not decided statically")
-    ck.observe("O2 AlignmentResultRow.resolve joins only segments[0] of each record; `s != AlignmentSegment.empty` "
-               "compares a segment with a property object (always true), so emptied segments stay in the joined row")
+    ck.observe("O2 `s != AlignmentSegment.empty` in AlignmentResultRow.resolve compares a segment with a property object (always "
+               "true), so emptied segments stay in the joined row (they hold no pair); that the join takes only segments[0] of "
+               "each record is known finding K1 of C08")
 
 
 # ---------------------------------------------------------------------------------------------------------- C01.1
